@@ -32,14 +32,14 @@ ASSUMPTIONS = [
     "held means: held on the executions listed, not verified for all trees",
 ]
 MINIMA = {"quick": {"values_compared": 4000, "file_object_values": 100, "stale_tables": 60, "multi_table_files": 60},
-          "thorough": {"values_compared": 40000}}
+          "thorough": {"values_compared": 500000}}
 MECH = "hyperv.decode"
 DATA = os.path.join(os.environ.get("VF_REPO", "/repo"), "tests", "data")
 KEYCHARS = "abcdefghijklmnopqrstuvwxyzABCXYZ0123456789_-. äé日本語😀"
 
 
 def plan(tier: str, seed: int) -> list[dict]:
-    n = 220 if tier == "quick" else 5000
+    n = 220 if tier == "quick" else 40000
     return [{"i": i} for i in range(n)] + [{"i": -1, "fixture": "test.vmcx"}, {"i": -2, "fixture": "test.VMRS"}]
 
 
